@@ -450,6 +450,54 @@ def gen_emacros(rng):
     return prog
 
 
+def gen_forwarding(rng):
+    """expression macros that FORWARD their parameters to another macro whose parameters have the SAME names: in the same
+    order, permuted (swap / rotation), partially, through two levels, as bare `$p` and inside compound arguments; values
+    all different and operations non-commutative, so that any confusion between the caller's and the callee's frame
+    (dynamic scoping, sequential binding, lazy binding) changes the result"""
+    names = rng.choice([["a", "b"], ["x", "y"], ["a", "b", "c"], ["x"]])
+    k = len(names)
+    # leaf: a non-commutative polynomial of its parameters
+    leaf_body = ["$" + names[0]]
+    for i, nm in enumerate(names[1:], start=2):
+        leaf_body += ["*", str(10 ** (i - 1)), "-", "$" + nm] if rng.random() < 0.5 else ["-", "$" + nm, "*", str(i + 1)]
+    leaf_body = ["1000", "+"] + leaf_body
+    prog = [("edef", "leaf", names, X(rng, leaf_body))]
+    perm = list(names)
+    how = rng.choice(["same", "swap", "rotate", "compound", "partial"])
+    if how == "swap" and k >= 2: perm[0], perm[1] = perm[1], perm[0]
+    elif how == "rotate" and k >= 2: perm = perm[1:] + perm[:1]
+    def fwd(callee, order):
+        toks = [callee, "("]
+        for i, nm in enumerate(order):
+            if i: toks.append(",")
+            if how == "compound" and rng.random() < 0.6:
+                toks += ["$" + nm, "+", str(rng.randrange(1, 4))]
+            elif how == "partial" and i == k - 1:
+                toks += [str(rng.randrange(50, 60))]
+            else:
+                toks += ["$" + nm]
+        return toks + [")"]
+    prog.append(("edef", "mid", names, X(rng, fwd("leaf", perm) + rng.choice([[], ["*", "2"], ["+", "$" + names[0]]]))))
+    top = "mid"
+    if rng.random() < 0.5:
+        perm2 = perm[1:] + perm[:1] if k >= 2 else perm
+        prog.append(("edef", "outer", names, X(rng, fwd("mid", perm2))))
+        top = "outer"
+    vals = rng.sample(range(2, 40), k)
+    call = [top, "("]
+    for i, v in enumerate(vals):
+        if i: call.append(",")
+        call.append(lit(rng, v))
+    call.append(")")
+    stmts = [("push", 32, X(rng, call))]
+    if rng.random() < 0.5:
+        stmts.append(("apush", X(rng, call + ["+", "1"])))
+    if rng.random() < 0.5:
+        rng.shuffle(prog)
+    return (prog + stmts) if rng.random() < 0.6 else (stmts + prog)
+
+
 def inject_fault(rng, prog):
     """break a well-formed program in one of the ways C13 lists"""
     prog = list(prog)
